@@ -143,7 +143,12 @@ def onLine (st : St) (n : Nat) (l : String) : IO St := do
     match parseReq st facts, impl with
     | some r, _ :: status :: grew :: more =>
       let (s', resp) := if faulted then handleIssuerFault st.cfg st.s r else handle st.cfg st.s r
-      let (stored, iss) := showStored resp.outcome
+      -- what the log holds for this entry: the pending entry of the FIRST admission with this deduplication key (a
+      -- resubmission through another chain is answered with that one; its chain fingerprints are the first chain's)
+      let held : Option Outcome := match resp.outcome with
+        | some (.admit e ch) => some (.admit ((s'.pool.find? (sameKey e)).getD e) ch)
+        | o => o
+      let (stored, iss) := showStored held
       let stored := if resp.status == 200 then stored else "none"
       let iss := if resp.status == 200 then iss else "-"
       let modelLine := s!"{resp.status} grew={s'.pool.length - st.s.pool.length} {stored} iss={iss}"
